@@ -1746,6 +1746,8 @@ def check_limit(r, rule):
             lim_none = any(nn.R._role_of(q, strip(g_)[2]) == "LIMIT" and strip(g_)[1] in ("is", "==") and strip(g_)[3] == NONE and pol for g_, pol in br if head(strip(g_)) == "cmp")
             K = f"{MODE_NAME[mode]}/{'untruncated' if lim_none else 'truncated'}"
             n += 1
+            if info.get("offset") is not None:
+                r.rep.ob(rule, q, False, "the closest neighbours are kept: the cut starts at the first entry of the sorted list", where, expected="[0:limit]", found=f"[{show(info['offset'], 20)}:...]", key=f"{K} offset")
             if lim_none:
                 r.rep.ob(rule, q, not trunc, "max_returns = None keeps every neighbour", where, expected="no slice", found="sliced" if trunc else "unsliced", key=f"{K} none")
                 continue
